@@ -7,7 +7,20 @@ LEVEL = "other"
 RULES = {"C04.R1", "C04.R2", "C04.R3", "C04.R4"}
 
 
+# the caller's key is the one that reaches the core call in every wrapper (layer contracts), reported under C04's own id
+ALIAS = {"C01.R7": "C04.R5", "C02.R5": "C04.R5"}
+
+
 def extra(res, facts, entries, protos):
+    # key admission: a v3 public key other than the signer's canonical encoding must not be taken for it (symbolic tag byte)
+    from .. import keys_sem
+    for f in keys_sem.v3_public_key_admission(facts, "C04.S4"):
+        res.oblige(bool(f.ok))
+        if f.ok:
+            res.inst(f.rule, f.desc)
+        else:
+            res.violate(f.rule, f.where, f.construct, f.msg if f.ok is False else "not decided (fail closed): " + f.msg, file=f.file, line=f.line)
+    res.floor("C04.S4", 2)
     # prerequisite: the check exists and gates success (C03.R1 / R4 re-evaluated here) - decided by C04.S1 when the semantic engine followed every path
     if getattr(res, "sem_ok", False):
         return
@@ -24,8 +37,8 @@ def extra(res, facts, entries, protos):
 def run(tier):
     return _proto.run_rules(
         "C04", LEVEL, RULES,
-        {"C04.R1": 22, "C04.R2": 6, "C04.R3": 6, "C04.R4": 4},
+        {"C04.R1": 22, "C04.R2": 6, "C04.R3": 6, "C04.R4": 4, "C04.R5": 50},
         "provenance terms: the caller's whole 32-byte key (unsliced) is the key of HKDF-extract / keyed BLAKE2b / XChaCha20-Poly1305 in all 8 derivation functions and reaches them from the key parameter; "
         "the derived authentication key keys the tag that is compared; the verifier's key is built from the public_key parameter only (v3: the compressed supplied key is also first in the PAE); every Ok exit is gated by that check",
         ["HKDF-SHA384 / keyed BLAKE2b are PRFs of the whole key; signature schemes are unforgeable: another key fails"],
-        extra, "that a different key makes authentication fail (PRF / unforgeability: cryptographic)", sem_rules={'C04.S1': 8, 'C04.S2': 8, 'C04.S3': 4})
+        extra, "that a different key makes authentication fail (PRF / unforgeability: cryptographic)", alias=ALIAS, sem_rules={'C04.S1': 8, 'C04.S2': 8, 'C04.S3': 4})
